@@ -24,7 +24,7 @@ from engine.common.core import Obligation, Cover, mval
 from engine.pyvc.values import *
 from engine.pyvc import models
 from engine.pyvc.loops import LoopSpec
-from engine.pyvc.harness import toolkit, raw, where, new_engine, run_paths, path_obligations, register_fn, note_engine, qualname, par_cases
+from engine.pyvc.harness import toolkit, raw, where, new_engine, run_paths, path_obligations, register_fn, note_engine, qualname, par_cases, exc_note, sect
 
 ID = "C16"
 ENGINE = "PyVC"
@@ -43,13 +43,13 @@ def build(run, prop=ID):
     E = new_engine()
     E.live_modules = ("codec",)
     cd = toolkit("codec")
-    build_field(run, prop, E, cd)
-    build_ints(run, prop, E, cd)
-    build_buf_spare(run, prop, E, cd)
-    build_bitfields(run, prop, E, cd)
-    build_bv_lemma(run, prop)
-    build_envelope(run, prop, E, cd)
-    build_sequence(run, prop, E, cd)
+    sect(run, build_field, run, prop, E, cd)
+    sect(run, build_ints, run, prop, E, cd)
+    sect(run, build_buf_spare, run, prop, E, cd)
+    sect(run, build_bitfields, run, prop, E, cd)
+    sect(run, build_bv_lemma, run, prop)
+    sect(run, build_envelope, run, prop, E, cd)
+    sect(run, build_sequence, run, prop, E, cd)
     note_engine(run, E)
     run.assume("callbacks get_pres/get_len/get_val are pure; check() overrides are outside the contract; decode-time get_len equals the encoded length "
                "(what 'in-range values' means for callback-driven fields)")
@@ -593,7 +593,7 @@ def build_sequence(run, prop, E, cd):
         if out[0] == "cut":
             continue
         if out[0] == "raise":
-            run.add(Obligation(prop, qualname(fb), "never_raises_when_items_decode", p.pc, z3.BoolVal(False), kind="noexc", case=out[1].cls.__name__, where=where(fb), tag=tag))
+            run.add(Obligation(prop, qualname(fb), "never_raises_when_items_decode", p.pc, z3.BoolVal(False), kind="noexc", note=exc_note(out[1]), case=out[1].cls.__name__, where=where(fb), tag=tag))
             continue
         n_exit += 1
         r = out[1]
